@@ -3,8 +3,9 @@
    dimensions, membership [in_dim]/[in_space], the per-cell inverse transform [inv_cell] (REPAIRED code: Real clips,
    fixes/F02) and [inverse_row]; every numeric step of the code is an oracle (Section variables R, lg, pw) and every
    theorem quantifies over them.  The model describes /repo at HEAD *plus* the repairs proposed with this property
-   (fixes/F03: the one-shot strategies topk / boltzmann inverse-transform what they return); the pinned behaviour of
-   those two branches is the [Pinned] variant, about which Property.v proves the refutation.
+   (fixes/F03 + fixes/F47: the one-shot strategies topk / boltzmann inverse-transform what they return and give inactive
+   dimensions their canonical value again); the pinned behaviour of those two branches is the [Pinned] variant, the
+   intermediate one (F03 alone) the [Decoded] variant; Property.v proves a refutation for each.
 
    Parts
      1. decode pipelines          ask_decode (Optimizer._tell: clip to transformed bounds unless the space is purely
@@ -167,7 +168,9 @@ Fixpoint canon_row (sp : space) (act : list bool) (row : list Q) : list Q :=
 
 (* ------------------------------------------------------------------------------------------------ 4. the ask automaton *)
 Inductive strat := StCL | StTopk | StBoltz | StQ.    (* cl_min / cl_mean / cl_max | topk | boltzmann | qLCB / qLCBd *)
-Inductive variant := Pinned | Fixed.
+(* one-shot branches: Pinned = rows of _last_X as they are (before fixes/F03); Decoded = inverse_transform only (fixes/F03
+   alone); Fixed = inverse_transform then deactivate_inactive_dimensions (fixes/F03 + fixes/F47) *)
+Inductive variant := Pinned | Decoded | Fixed.
 Inductive branch :=
 | BSingleInit      (* _ask: next initial sample *)
 | BSingleRandom    (* _ask: _ask_random_points() *)
@@ -214,7 +217,7 @@ Definition branch_of (st : ostate) (n : option nat) (s : strat) : branch :=
 Record oracle := mkOr {
   r_rvs : list (list Q);                  (* rows of Space.rvs (after duplicate filtering), in the order they are used *)
   r_idx : list nat;                       (* topk / boltzmann: indices into _last_X ;  qLCB: indices into r_rvs *)
-  r_fits : list (list Q * list bool) }.   (* constant liar: per fit of the copy, (argmin / lbfgs vector, activity flags) *)
+  r_fits : list (list Q) }.               (* constant liar: per fit of the copy, the argmin / lbfgs vector *)
 
 Definition npts (n : option nat) : nat := match n with None => 1%nat | Some k => k end.
 
@@ -230,14 +233,20 @@ Section Automaton.
   Variable pw : Q -> Q -> Q.
   Variable v : variant.
   Variable sp : space.
+  (* ConfigSpace: which dimensions are active in a point (a function of the point; all true for a flat space) *)
+  Variable actf : list Q -> list bool.
+
+  (* Space.deactivate_inactive_dimensions *)
+  Definition deactivate (x : list Q) : list Q := canon_row sp (actf x) x.
 
   (* _next_x after a fit: inverse_transform, then deactivate_inactive_dimensions *)
-  Definition fit_point (z : list Q) (act : list bool) : list Q := canon_row sp act (ask_decode R lg pw sp z).
+  Definition fit_point (z : list Q) : list Q := deactivate (ask_decode R lg pw sp z).
 
   Definition oneshot_point (zt : list Q) : list Q :=
     match v with
-    | Fixed => inverse_row R lg pw sp zt       (* fixes/F03: space.inverse_transform(self._last_X[idx]) *)
-    | Pinned => zt                             (* pinned code: self._last_X[idx].tolist() - a TRANSFORMED row *)
+    | Fixed => deactivate (inverse_row R lg pw sp zt)   (* fixes/F03 + fixes/F47 *)
+    | Decoded => inverse_row R lg pw sp zt              (* fixes/F03 alone: the round trip is not exact, inactive values drift *)
+    | Pinned => zt                                      (* pinned code: self._last_X[idx].tolist() - a TRANSFORMED row *)
     end.
 
   Definition ask_points (st : ostate) (n : option nat) (s : strat) (orc : oracle) : list (list Q) * ostate :=
@@ -258,25 +267,25 @@ Section Automaton.
         (match o_last st with Some L => map oneshot_point (pick L (r_idx orc)) | None => [] end, st)
     | BQ =>
         (match o_next st with Some x => [x] | None => [] end ++ pick (r_rvs orc) (r_idx orc), st)
-    | BCL => (map (fun f => fit_point (fst f) (snd f)) (r_fits orc), st)
+    | BCL => (map fit_point (r_fits orc), st)
     end.
 
   Inductive event :=
-  | Tell (k_ok : Z) (fit : bool) (cands : list (list Q)) (z : list Q) (act : list bool)
+  | Tell (k_ok : Z) (fit : bool) (cands : list (list Q)) (z : list Q)
         (* k_ok results that are not failures were told; when a model is fitted: the candidates that were sampled,
-           the vector the acquisition optimizer returned, the activity flags ConfigSpace computed *)
+           the vector the acquisition optimizer returned *)
   | Ask (n : option nat) (s : strat) (orc : oracle).
 
-  Definition tell_state (st : ostate) (k_ok : Z) (fit : bool) (cands : list (list Q)) (z : list Q) (act : list bool) : ostate :=
+  Definition tell_state (st : ostate) (k_ok : Z) (fit : bool) (cands : list (list Q)) (z : list Q) : ostate :=
     let ni := (o_ninit st - k_ok)%Z in
     if fit && (ni <=? 0)%Z && negb (o_dummy st) then
-      mkO ni (o_init st) (o_dummy st) (S (o_models st)) (Some (fit_point z act))
+      mkO ni (o_init st) (o_dummy st) (S (o_models st)) (Some (fit_point z))
           (Some (map (transform_row R lg sp) cands))
     else mkO ni (o_init st) (o_dummy st) (o_models st) (o_next st) (o_last st).
 
   Definition step (st : ostate) (e : event) : list (list Q) * ostate :=
     match e with
-    | Tell k fit cands z act => ([], tell_state st k fit cands z act)
+    | Tell k fit cands z => ([], tell_state st k fit cands z)
     | Ask n s orc => ask_points st n s orc
     end.
 
